@@ -185,3 +185,76 @@ def calls_in(s, acc=None):
         for x in s:
             calls_in(x, acc)
     return acc
+
+
+def linearize(s):
+    """hoist call arguments / operands in evaluation order so that `f(g(x))` and `let t = g(x); f(t)`
+    have the same shape: straight-line code becomes a flat ('seq', ...) of argument-less calls and
+    control nodes."""
+    out = []
+    _lin(s, out)
+    if len(out) == 1:
+        return out[0]
+    return ("seq",) + tuple(out)
+
+
+def _lin(s, out):
+    if not isinstance(s, tuple) or not s:
+        return
+    k = s[0]
+    if not isinstance(k, str):
+        for x in s:
+            _lin(x, out)
+        return
+    if k == "seq":
+        for x in s[1:]:
+            _lin(x, out)
+    elif k == "call":
+        for x in s[2:]:
+            _lin(x, out)
+        out.append(("call", s[1]))
+    elif k in ("bin", "assign_op"):
+        for x in s[2:]:
+            _lin(x, out)
+        out.append((k, s[1]))
+    elif k == "un":
+        _lin(s[2], out)
+        out.append((k, s[1]))
+    elif k in ("assign", "index", "tuple", "array"):
+        for x in s[1:]:
+            _lin(x, out)
+    elif k == "field":
+        for x in s[2:]:
+            _lin(x, out)
+        out.append(("field", s[1]))
+    elif k in ("try", "await"):
+        _lin(s[1], out)
+        out.append((k,))
+    elif k in ("ret", "break", "yield", "become"):
+        for x in s[1:]:
+            _lin(x, out)
+        out.append((k,))
+    elif k == "struct":
+        for f in s[2]:
+            _lin(f[1], out)
+        _lin(s[3], out)
+        out.append(("struct", s[1], tuple(f[0] for f in s[2])))
+    elif k == "if":
+        _lin(s[1], out)
+        out.append(("if", linearize(s[2]) if len(s) > 2 else (), linearize(s[3]) if len(s) > 3 else ()))
+    elif k == "iflet":
+        for x in s[2:]:
+            _lin(x, out)
+        out.append(("iflet", s[1]))
+    elif k == "match":
+        _lin(s[1], out)
+        out.append(("match", tuple((a[0], linearize(a[1]), linearize(a[2])) for a in s[2])))
+    elif k == "loop":
+        out.append(("loop", s[1], linearize(s[2])))
+    elif k == "closure":
+        out.append(("closure", linearize(s[1])))
+    elif k == "let-else":
+        _lin(s[1], out)
+        out.append(("let-else", linearize(s[2])))
+    else:
+        out.append(s)
